@@ -10,6 +10,6 @@ def jobs(tier):
     for env in (0, 1):
         for chain in (0, 1, 2):
             out.append(Job('precedence-env%d-chain%d' % (env, chain), 'cfg.cpp', 'h_c32_precedence', [env, chain], extra_units=['strinst.cpp'], reach=['resolved'], snippets=SN, stream_sink=True, timeout=1500, bounds='environment layer %s, extends chain of length %d' % ('present' if env else 'absent', chain)))
-    for k in (0, 1, 2, 3):
-        out.append(Job('errors-%d' % k, 'cfg.cpp', 'h_c32_errors', [k], extra_units=['strinst.cpp'], reach=['reported'], snippets=SN, stream_sink=True, timeout=1500, bounds='error kind %d (self cycle, 2-cycle, missing ancestor, missing selected profile)' % k))
+    for k in (0, 1, 2, 3, 4):
+        out.append(Job('errors-%d' % k, 'cfg.cpp', 'h_c32_errors', [k], extra_units=['strinst.cpp'], reach=['reported'], snippets=SN, stream_sink=True, timeout=1500, bounds='error kind %d (self cycle, 2-cycle, missing ancestor, missing selected profile, tail leading into a cycle that does not contain the selected profile)' % k))
     return out
